@@ -547,5 +547,5 @@ def plan(tier, seed):
                     "the parser", "IEEE correctness of libm pow/fmod (oracle is the same call on the same symbolic operands)",
                     "fixed-size storage forms (off in the default configuration)", "L2 for kinds outside the L2 list",
                     "L2 for the unary operators"],
-        "caps": {"quick_timeout": 900, "thorough_timeout": 1800, "heavy_jobs": 10, "heavy_rss_gb": 6},
+        "caps": {"quick_timeout": 800, "thorough_timeout": 1800, "heavy_jobs": 14, "heavy_rss_gb": 6},     # the 12 quick L2 harnesses side by side (900 s stop)
     }
